@@ -410,6 +410,17 @@ func (rn *runner) run(s Scenario) bool {
 				args[0] = Tok{K: "int", N: cur}
 				req.Args = args
 			}
+		case "sleep":
+			// a pause of At ms; the reference store's clock advances by exactly that much (its expiry is virtual-time,
+			// like the model's), the example store sees real time
+			time.Sleep(time.Duration(st.At) * time.Millisecond)
+			if rs != nil {
+				rs.advance(st.At)
+			}
+			rn.rec.Emit(Ev{"ev": "sleep", "c": st.C, "ms": st.At})
+			if rs != nil && s.Model && !s.Concurrent && len(s.ModelConns) == 0 {
+				rn.rec.Emit(Ev{"ev": "store", "c": st.C, "dbs": rs.dump()})
+			}
 		case "halfclose":
 			cr.sc.HalfClose()
 			if !cr.sc.WaitQuiet(rn.timeout) {
